@@ -33,7 +33,7 @@ def bounds(tier):
 
 
 def goals(tier):
-    return ["records-respelled-in-place-between-two-assemblies", "spelling-in-another-container", "spelling-of-rotated-plasmids", "per-letter-palindromic-junction", "mixed-case-between-records", "region-lowered", "region-raised", "per-letter-overhang", "error-MissingModule", "error-DuplicateModules",
+    return ["two-clashing-pairs", "records-respelled-in-place-between-two-assemblies", "spelling-in-another-container", "spelling-of-rotated-plasmids", "per-letter-palindromic-junction", "mixed-case-between-records", "region-lowered", "region-raised", "per-letter-overhang", "error-MissingModule", "error-DuplicateModules",
             "error-InvalidSequence", "typing-accepts", "typing-rejects", "alternating", "per-letter-equal-vector-overhangs", "ambiguity-code-N-in-either-case"]
 
 
@@ -293,6 +293,23 @@ def run_unit(unit, st, tier):
                                 continue
                             cased = [transform(s, t) for s, t in zip(up, combo)]
                             compare(st, "errors", enz03, up, cased, dict(family="errors", enz=enz03, vup=vup, vdown=vdown, mods=[list(m) for m in mods], case=list(combo)), cache)
+        # two clashing pairs at once (a1, a2 start alike; g1, g2 start alike): the SAME pair must be named whatever the spelling
+        for vup, vdown in ((A[0], A[1]), (A[2], A[0])):
+            mods = [(A[1], A[2]), (A[1], A[3]), (A[3], A[0]), (A[3], A[2])]
+            vs = c03.vec_string(enz03, vup, vdown)
+            ms = [c03.mod_string(enz03, s, e, i) for i, (s, e) in enumerate(mods)]
+            if vs is None or any(m is None for m in ms):
+                st.filtered += 1
+                continue
+            up = [vs[0].upper()] + [m[0].upper() for m in ms]
+            for order in ([0, 1, 2, 3], [2, 3, 0, 1], [1, 2, 0, 3]):
+                upo = [up[0]] + [up[1 + i] for i in order]
+                for combo in itertools.product(["U", "L", "P3"], repeat=5):
+                    if set(combo) == {"U"}:
+                        continue
+                    cased = [transform(s, t) for s, t in zip(upo, combo)]
+                    compare(st, "errors", enz03, upo, cased, dict(family="errors", enz=enz03, vup=vup, vdown=vdown, mods=[list(mods[i]) for i in order], case=list(combo), two_pairs=True), cache)
+                    st.goal("two-clashing-pairs")
         st.sample(dict(family="errors", enz=enz03, vup=A[0], vdown=A[1], mods=[[A[2], A[0]]], case=["U", "L"]))
     else:
         from . import c16
